@@ -62,6 +62,9 @@ def check(reg, tier):
     _set_param_contract(reg)
     _set_dispersion_contract(reg)
     _convenience_contract(reg)
+    from contracts import interp_data
+    interp_data.contract(reg, PROP, {"selection"})
+    interp_data.contract_2d(reg, PROP)
     reg.assume("weights.get_weights replaced by its contract (C02): returns two fresh arrays")
     reg.assume("parameter tables of the builtin models are data facts from the live modules")
     reg.assume("SasView/bumps object plumbing outside the named functions is not under contract")
